@@ -433,6 +433,9 @@ class Harness:
                             ev = sim.schedule_event_rel(time_value(h.prog, d) if h.prog["clock"] != "int" else int(d),
                                                         model, "h", a[2], tag=tag)
                             h.events[tag] = ev
+                        elif a[0] == "unsub" and self.n == a[1]:
+                            # a one-shot listener: unsubscribes itself inside its a[1]-th notification
+                            sim.remove_listener(event.event_type, self)
             et = {"WARMUP_EVENT": ReplicationInterface.WARMUP_EVENT, "TIME_CHANGED_EVENT": SimulatorInterface.TIME_CHANGED_EVENT,
                   "START_EVENT": SimulatorInterface.START_EVENT}[spec["type"]]
             sim.add_listener(et, SimListener(spec))
